@@ -4,6 +4,9 @@
 package c07
 
 import (
+	"os"
+	"path/filepath"
+	"sync"
 	"fmt"
 	"math"
 	"math/bits"
@@ -23,6 +26,7 @@ type Case struct {
 	Probe string   `json:"probe"`
 	Want  []string `json:"want"`  // expected log lines ("" entries are not compared)
 	Class string   `json:"class"` // class-key stem
+	Pin   string   `json:"pin,omitempty"` // pinned kind: key into the committed snapshot of the pinned tree's behaviour
 }
 
 // ---------------------------------------------------------------------------
@@ -932,7 +936,83 @@ func genACL(tier string, emit func(Case)) {
 	emitACL(emit, []aclEntry{v4Alphabet()[0], v6Alphabet()[1], v4Alphabet()[3]}, append(append([]string{}, a4[:4]...), a6[:3]...), "mixed")
 }
 
+// genPositions: a condition means the same wherever it stands. For every condition of a broad list (bare strings that
+// are not set / set / set but empty, booleans, comparisons, regex matches) the same probe evaluates it as the first `if`,
+// as `else if` after one and after two false conditions (all three keywords), under `!` twice, and as the condition of
+// an if() expression; all answers must agree. No reference value is needed, so the empty-but-set string, whose
+// truthiness the reference refuses, is included.
+func genPositions(emit func(Case)) {
+	conds := []string{"var.bt", "var.bf", "req.http.Hn", "req.http.Ha", "req.http.He", "var.se", "var.sa",
+		`req.http.Ha == "a"`, `req.http.Hn == "a"`, `req.http.He == ""`, `var.se == ""`, "var.i7 < var.i1", "var.i1 <= var.i1", "var.f0 > var.fn",
+		`req.http.Hab ~ "^a"`, `req.http.Hn ~ "^a"`, `req.http.He ~ "^$"`, `req.http.Ha !~ "b"`, "!var.bf", "!req.http.He", "var.bt && req.http.He", "var.bf || var.se"}
+	for _, c := range conds {
+		var p strings.Builder
+		p.WriteString("sub probe {\n" + condPrelude + "  set req.http.He = \"\";\n  declare local var.x STRING;\n")
+		fmt.Fprintf(&p, "  if (%s) { log \"p=T\"; } else { log \"p=F\"; }\n", c)
+		fmt.Fprintf(&p, "  if (var.bf) { log \"x\"; } else if (%s) { log \"p=T\"; } else { log \"p=F\"; }\n", c)
+		fmt.Fprintf(&p, "  if (var.bf) { log \"x\"; } elsif (req.http.Hn) { log \"x\"; } elseif (%s) { log \"p=T\"; } else { log \"p=F\"; }\n", c)
+		fmt.Fprintf(&p, "  if (!(!(%s))) { log \"p=T\"; } else { log \"p=F\"; }\n", c)
+		fmt.Fprintf(&p, "  set var.x = if(%s, \"T\", \"F\");\n  log \"p=\" var.x;\n", c)
+		fmt.Fprintf(&p, "  if (var.bt && (%s)) { log \"p=T\"; } else { log \"p=F\"; }\n", c)
+		p.WriteString("}\n")
+		emit(Case{Kind: "position", Probe: p.String(), Want: []string{c}, Class: "position " + c})
+	}
+}
+
+// genPinned: arithmetic whose result the documentation does not define (mixed INTEGER / FLOAT / RTIME operands with
+// fractions, negative values) is compared with a committed snapshot of what the pinned tree computes
+// (mc/ref/data/c07_pinned.tsv, regenerated with VERIF_C07_SNAPSHOT=<file>): this decides drift, not correctness.
+func genPinned(emit func(Case)) {
+	fl := []string{"0.5", "1.5", "-1.5", "2.0", "2.75", "-0.25", "1000.9"}
+	in := []string{"0", "1", "3", "-3", "10", "7"}
+	for _, a := range in {
+		for _, op := range []string{"=", "+=", "-=", "*=", "/=", "%="} {
+			for _, b := range fl {
+				key := fmt.Sprintf("INTEGER %s %s FLOAT %s", a, op, b)
+				pr := fmt.Sprintf("sub probe {\n  declare local var.t INTEGER;\n  declare local var.o FLOAT;\n  set var.t = %s;\n  set var.o = %s;\n  set var.t %s var.o;\n  log \"r=\" var.t;\n  log \"o=\" var.o;\n}\n", a, b, op)
+				emit(Case{Kind: "pinned", Probe: pr, Pin: key, Class: "pinned INTEGER " + op + " FLOAT"})
+			}
+		}
+	}
+	for _, a := range []string{"0s", "1s", "1500ms", "-2s", "90s"} {
+		for _, op := range []string{"+=", "-=", "*=", "/=", "%="} {
+			for _, b := range append(append([]string{}, fl...), "2", "-3", "7") {
+				typ := "FLOAT"
+				if !strings.Contains(b, ".") {
+					typ = "INTEGER"
+				}
+				key := fmt.Sprintf("RTIME %s %s %s %s", a, op, typ, b)
+				pr := fmt.Sprintf("sub probe {\n  declare local var.t RTIME;\n  declare local var.o %s;\n  set var.t = %s;\n  set var.o = %s;\n  set var.t %s var.o;\n  log \"r=\" var.t;\n  log \"o=\" var.o;\n}\n", typ, a, b, op)
+				emit(Case{Kind: "pinned", Probe: pr, Pin: key, Class: "pinned RTIME " + op + " " + typ})
+			}
+		}
+	}
+}
+
+var (
+	pinnedOnce sync.Once
+	pinned     map[string]string
+)
+
+func pinnedSnapshot() map[string]string {
+	pinnedOnce.Do(func() {
+		pinned = map[string]string{}
+		b, err := os.ReadFile(filepath.Join(os.Getenv("VERIF_DIR"), "mc/ref/data/c07_pinned.tsv"))
+		if err != nil {
+			b, _ = os.ReadFile("/verif/mc/ref/data/c07_pinned.tsv")
+		}
+		for _, l := range strings.Split(string(b), "\n") {
+			if kv := strings.SplitN(l, "\t", 2); len(kv) == 2 {
+				pinned[kv[0]] = kv[1]
+			}
+		}
+	})
+	return pinned
+}
+
 func gen07(tier string, emit func(Case)) {
+	genPositions(emit)
+	genPinned(emit)
 	genAssign(emit)
 	genConds(emit)
 	genBranches(tier, emit)
@@ -955,12 +1035,55 @@ func run(c Case) engine.Result {
 		// a crash is C08's; here the case is simply not comparable
 		return engine.Result{Skipped: true}
 	}
+	if err != nil && c.Kind == "position" {
+		return engine.Result{Skipped: true} // the condition is not accepted in one of the positions: nothing to compare
+	}
+	if err != nil && c.Kind == "pinned" {
+		logs, err = append(logs, "ERR "+firstLine(err.Error())), nil // a refusal is part of the recorded behaviour
+	}
 	if err != nil {
 		// the interpreter refuses a program of the core language that the reference defines
 		return engine.Result{NonTrivial: true, Outcome: "refused", Findings: []engine.Finding{{
 			Class: "refused|" + c.Class, What: fmt.Sprintf("the simulator refuses a program the reference defines: %v", firstLine(err.Error())), Detail: c.Probe}}}
 	}
 	res := engine.Result{NonTrivial: true, Outcome: "agree"}
+	if c.Kind == "position" {
+		var vals []string
+		for _, l := range logs {
+			if strings.HasPrefix(l, "p=") {
+				vals = append(vals, l)
+			}
+		}
+		if len(vals) != 6 {
+			return engine.Result{Skipped: true}
+		}
+		for _, v := range vals[1:] {
+			if v != vals[0] {
+				res.Outcome = "position-dependent"
+				res.Findings = []engine.Finding{{Class: "position|" + c.Want[0], What: fmt.Sprintf("the condition `%s` is answered %v as [first if, else if, elseif after two, !!, if() expression, && true]: its value depends on where it stands", c.Want[0], vals), Detail: c.Probe}}
+				break
+			}
+		}
+		return res
+	}
+	if c.Kind == "pinned" {
+		got := strings.Join(logs, " ")
+		if f := os.Getenv("VERIF_C07_SNAPSHOT"); f != "" {
+			fh, _ := os.OpenFile(f, os.O_APPEND|os.O_CREATE|os.O_WRONLY, 0o644)
+			fmt.Fprintf(fh, "%s\t%s\n", c.Pin, got)
+			fh.Close()
+			return res
+		}
+		want, ok := pinnedSnapshot()[c.Pin]
+		if !ok {
+			return engine.Result{Skipped: true}
+		}
+		if got != want {
+			res.Outcome = "drift"
+			res.Findings = []engine.Finding{{Class: "drift|" + c.Class, What: fmt.Sprintf("`%s` now gives %q, the pinned tree gave %q (mixed-type arithmetic the documentation does not define: drift from the recorded behaviour)", c.Pin, got, want), Detail: c.Probe}}
+		}
+		return res
+	}
 	if c.Kind == "dual" {
 		if len(logs) != 2 {
 			return engine.Result{Skipped: true}
@@ -1002,7 +1125,7 @@ func init() {
 	engine.Register(engine.Spec[Case]{
 		ID:    "C07",
 		Level: "exploration",
-		Rule: "programs of the core language enumerated completely over stated alphabets and compared with an independent reference evaluator (mc/checks/c07, written from the Fastly documentation): (1) every assignment operator x operand pair from 10 INTEGER, 5 FLOAT, 4 RTIME and 2 BOOL values x {literal, variable} where the reference defines the result (no overflow, divisor != 0, shift/rotate count 0..63), declaration defaults and STRING renderings; (2) every comparison of 21 typed atoms (set/not-set/empty strings, headers, literals) with ==, !=, <, >, <=, >= where defined, regex matches over 8 patterns in the RE2/PCRE common subset, truthiness, prefix !, and all &&/||/! combinations over a reduced leaf set; each comparison also in its dual form (a<b vs b>a, == vs !=, ~ vs !~) checked on the implementation alone; (3) every truth assignment of if / else-if / else chains up to 3 conditions, every switch over 5 controls x arrangements of up to 3 (quick) / 4 (thorough) cases (== and ~ tests) x fallthrough flags x default position, not-set propagation; (4) every ACL of up to 3 (quick) / 4 (thorough) entries from the 62 plain/negated prefixes of a 4-bit IPv4 sub-space (hosts without mask) x 18 addresses, and the same on a 3-bit IPv6 sub-space, plus every ACL of up to 2 (quick) / 3 (thorough) entries from 24 IPv4 and 16 IPv6 plain/negated prefixes with masks /0, /1 and at and next to the byte boundaries x 31 / 20 addresses inside, on the boundary of and outside each, against a longest-prefix reference. non-trivial = every case; distinct = distinct program",
+		Rule: "programs of the core language enumerated completely over stated alphabets and compared with an independent reference evaluator (mc/checks/c07, written from the Fastly documentation): (1) every assignment operator x operand pair from 10 INTEGER, 5 FLOAT, 4 RTIME and 2 BOOL values x {literal, variable} where the reference defines the result (no overflow, divisor != 0, shift/rotate count 0..63), declaration defaults and STRING renderings; (2) every comparison of 21 typed atoms (set/not-set/empty strings, headers, literals) with ==, !=, <, >, <=, >= where defined, regex matches over 8 patterns in the RE2/PCRE common subset, truthiness, prefix !, and all &&/||/! combinations over a reduced leaf set; each comparison also in its dual form (a<b vs b>a, == vs !=, ~ vs !~) checked on the implementation alone; (3) every truth assignment of if / else-if / else chains up to 3 conditions, every switch over 5 controls x arrangements of up to 3 (quick) / 4 (thorough) cases (== and ~ tests) x fallthrough flags x default position, not-set propagation; (4) every ACL of up to 3 (quick) / 4 (thorough) entries from the 62 plain/negated prefixes of a 4-bit IPv4 sub-space (hosts without mask) x 18 addresses, and the same on a 3-bit IPv6 sub-space, plus every ACL of up to 2 (quick) / 3 (thorough) entries from 24 IPv4 and 16 IPv6 plain/negated prefixes with masks /0, /1 and at and next to the byte boundaries x 31 / 20 addresses inside, on the boundary of and outside each, against a longest-prefix reference; (5) 22 conditions (incl. the empty-but-set string) each evaluated in 6 positions (if, else if, elseif after two, !!, if() expression, && true) that must agree; (6) 432 mixed-type arithmetic cells (INTEGER op= FLOAT, RTIME op= FLOAT/INTEGER) compared with a committed snapshot of the pinned tree (drift only). non-trivial = every case; distinct = distinct program",
 		Gen:  gen07,
 		Key:  func(c Case) string { return c.Decls + "\x00" + c.Probe },
 		Run:  run,
